@@ -15,9 +15,12 @@
      deco_pixel f s o w p       = if 0 < w: underline rectangle (o.x, o.y+ul.offset, w, ul.height) in its effective
                                   colour, else strikethrough rectangle (o.x, o.y+st.offset, w, st.height), else None
      font_ok f                  all fields non-negative, heights/offsets <= 2^28
-     draw_ok f pos n            |pos| <= 2^28 and pos.x + n*(cw+sp) <= 2^28 (no i32 saturation is reached)  *)
+     draw_ok f pos n            |pos| <= 2^28 and pos.x + n*(cw+sp) <= 2^28 (no i32 saturation is reached)
+     index_ok F text            every character's glyph index fits MonoFont::glyph's u32/i32 arithmetic: 0 <= index < 2^32 and
+                                (index / glyphs_per_row + 1) * ch < 2^31 (mod.rs:109-114 `index as u32`, `row * height`, `as i32`);
+                                holds for every string with every built-in font (C14_builtin_index_ok)  *)
 From EG Require Import Base.Prelude Model.Geometry Proofs.Geometry Model.Fontmodel Proofs.Fontmodel
-  Gen.FontTable Model.Fontbuiltin Proofs.Fontbuiltin.
+  Gen.FontTable Model.Fontbuiltin Proofs.FontGolden Proofs.Fontbuiltin Model.Textmodel Proofs.Textmodel Proofs.Textbox Proofs.Textbuiltin.
 
 (* ------------------------------------------------------------------ glyph mapping *)
 
@@ -44,12 +47,22 @@ Theorem C14_glyph_area_is_row_column_cell : forall f gi,
   glyph_area f gi = R (P ((gi mod gpr) * f_cw f) ((gi / gpr) * f_ch f)) (S (f_cw f) (f_ch f)).
 Proof. exact glyph_area_cell. Qed.
 
+(* distinct indices designate distinct, even disjoint, cells *)
+Theorem C14_glyph_cells_distinct : forall f i j,
+  font_wf f -> 0 <= i -> 0 <= j -> glyph_area f i = glyph_area f j -> i = j.
+Proof. exact glyph_area_injective. Qed.
+
+Theorem C14_glyph_cells_disjoint : forall f i j p,
+  font_wf f -> 0 <= i -> 0 <= j -> i <> j ->
+  contains (glyph_area f i) p && contains (glyph_area f j) p = false.
+Proof. exact glyph_areas_disjoint. Qed.
+
 (* ------------------------------------------------------------------ draw_string: ANY font record, ANY string *)
 
 (* the whole pixel map in one equation: decorations over cells/spacing (line_pixel is the recursive reading of
    "cell, spacing, cell, ..."; the next four theorems give its closed form) *)
 Theorem C14_draw_string_pixel_map : forall F s text pos b p,
-  font_ok (mf_geom F) -> draw_ok (mf_geom F) pos (length text) ->
+  font_ok (mf_geom F) -> draw_ok (mf_geom F) pos (length text) -> index_ok F text ->
   render (fst (draw_string F s text pos b)) p =
   let o := origin (mf_geom F) pos b in
   orelse (deco_pixel (mf_geom F) s o (advance (mf_geom F) s (length text)) p) (line_pixel F s o text p).
@@ -58,7 +71,7 @@ Proof. exact render_draw_string. Qed.
 (* pixel (dx,dy) of the i-th cell, at x + i*(cw+sp): the designated atlas cell, on -> text colour,
    off -> background colour (None = untouched), unless a decoration covers it *)
 Theorem C14_draw_string_cell : forall F s text pos b i c dx dy,
-  font_ok (mf_geom F) -> draw_ok (mf_geom F) pos (length text) ->
+  font_ok (mf_geom F) -> draw_ok (mf_geom F) pos (length text) -> index_ok F text ->
   nth_error text i = Some c -> 0 <= dx < f_cw (mf_geom F) -> 0 <= dy < f_ch (mf_geom F) ->
   let f := mf_geom F in
   let p := P (px pos + Z.of_nat i * (f_cw f + f_sp f) + dx) (py pos - baseline_offset f b + dy) in
@@ -68,7 +81,7 @@ Proof. exact draw_string_cell. Qed.
 
 (* the spacing columns between cell i and cell i+1 get the background colour (None = untouched) *)
 Theorem C14_draw_string_spacing : forall F s text pos b i dx dy,
-  font_ok (mf_geom F) -> draw_ok (mf_geom F) pos (length text) ->
+  font_ok (mf_geom F) -> draw_ok (mf_geom F) pos (length text) -> index_ok F text ->
   (Datatypes.S i < length text)%nat -> 0 <= dx < f_sp (mf_geom F) -> 0 <= dy < f_ch (mf_geom F) ->
   let f := mf_geom F in
   let p := P (px pos + Z.of_nat i * (f_cw f + f_sp f) + f_cw f + dx) (py pos - baseline_offset f b + dy) in
@@ -78,7 +91,7 @@ Proof. exact draw_string_spacing. Qed.
 
 (* nothing else is touched: outside the line box only decoration pixels exist *)
 Theorem C14_draw_string_elsewhere : forall F s text pos b p,
-  font_ok (mf_geom F) -> draw_ok (mf_geom F) pos (length text) ->
+  font_ok (mf_geom F) -> draw_ok (mf_geom F) pos (length text) -> index_ok F text ->
   let f := mf_geom F in
   contains (R (origin f pos b) (S (line_width f (length text)) (f_ch f))) p = false ->
   render (fst (draw_string F s text pos b)) p =
@@ -87,7 +100,7 @@ Proof. exact draw_string_elsewhere. Qed.
 
 (* without decoration colours the cell shows exactly the designated atlas cell *)
 Theorem C14_draw_string_cell_plain : forall F s text pos b i c dx dy,
-  font_ok (mf_geom F) -> draw_ok (mf_geom F) pos (length text) ->
+  font_ok (mf_geom F) -> draw_ok (mf_geom F) pos (length text) -> index_ok F text ->
   cs_ul s = DNone -> cs_st s = DNone ->
   nth_error text i = Some c -> 0 <= dx < f_cw (mf_geom F) -> 0 <= dy < f_ch (mf_geom F) ->
   let f := mf_geom F in
@@ -98,7 +111,7 @@ Proof. exact draw_string_cell_plain. Qed.
 
 (* underline and strikethrough cover [x, next.x) at the font's offsets; the underline is on top *)
 Theorem C14_underline_covers_width : forall F s text pos b p col,
-  font_ok (mf_geom F) -> draw_ok (mf_geom F) pos (length text) ->
+  font_ok (mf_geom F) -> draw_ok (mf_geom F) pos (length text) -> index_ok F text ->
   let f := mf_geom F in
   let next := snd (draw_string F s text pos b) in
   effective_color (cs_ul s) (cs_text s) = Some col ->
@@ -108,7 +121,7 @@ Theorem C14_underline_covers_width : forall F s text pos b p col,
 Proof. exact underline_covers. Qed.
 
 Theorem C14_strikethrough_covers_width : forall F s text pos b p col,
-  font_ok (mf_geom F) -> draw_ok (mf_geom F) pos (length text) ->
+  font_ok (mf_geom F) -> draw_ok (mf_geom F) pos (length text) -> index_ok F text ->
   let f := mf_geom F in
   let next := snd (draw_string F s text pos b) in
   effective_color (cs_st s) (cs_text s) = Some col ->
@@ -122,7 +135,77 @@ Theorem C14_draw_string_next_position : forall F s text pos b,
   snd (draw_string F s text pos b) = P (px pos + advance (mf_geom F) s (length text)) (py pos).
 Proof. exact draw_string_next. Qed.
 
+(* ------------------------------------------------------------------ Text with a MonoTextStyle *)
+
+(* Text::draw of a text without '\n' is draw_string of the line at the aligned, baseline-adjusted position *)
+Theorem C14_text_one_line_is_draw_string : forall F s ts pos l,
+  no_nl l ->
+  text_draw F s ts pos l =
+  draw_string F s (strip_cr l) (line_position (mf_geom F) s ts pos (strip_cr l)) (t_base ts).
+Proof. exact text_draw_one_line. Qed.
+
+(* the i-th character of a left aligned one-line Text *)
+Theorem C14_text_cell : forall F s ts pos text i c dx dy,
+  font_ok (mf_geom F) -> draw_ok (mf_geom F) pos (length text) -> index_ok F text ->
+  t_align ts = ALeft -> no_nl text -> strip_cr text = text ->
+  nth_error text i = Some c -> 0 <= dx < f_cw (mf_geom F) -> 0 <= dy < f_ch (mf_geom F) ->
+  let f := mf_geom F in
+  let q := P (px pos + Z.of_nat i * (f_cw f + f_sp f) + dx) (py pos - baseline_offset f (t_base ts) + dy) in
+  render (fst (text_draw F s ts pos text)) q =
+  orelse (deco_pixel f s (origin f pos (t_base ts)) (advance f s (length text)) q) (cell_colour F s c dx dy).
+Proof. exact text_cell. Qed.
+
+(* any line of a multi-line Text: where no other line draws, the pixel is the one draw_string gives that line
+   at the position Text::lines assigns to it (C15_alignment), so the cell theorems above apply to it *)
+Theorem C14_text_line_pixels : forall F s ts pos text k line p q,
+  nth_error (text_lines (mf_geom F) s ts pos text) k = Some (line, p) ->
+  (forall j l' p', j <> k -> nth_error (text_lines (mf_geom F) s ts pos text) j = Some (l', p') ->
+                   render (fst (draw_string F s l' p' (t_base ts))) q = None) ->
+  render (fst (text_draw F s ts pos text)) q = render (fst (draw_string F s line p (t_base ts))) q.
+Proof. exact text_line_pixels. Qed.
+
 (* ------------------------------------------------------------------ built-in fonts (regenerated table) *)
+
+(* end to end: with a built-in font, the i-th character c = n-th character of the font's mapping shows exactly
+   atlas cell n (row n / glyphs_per_row, column n mod glyphs_per_row), on -> text colour, off -> background *)
+Theorem C14_builtin_char_shows_its_cell : forall b atlas s text pos bl i c n dx dy,
+  In b fonts ->
+  let f := bf_font b in
+  let F := MFont f (builtin_index b) atlas in
+  draw_ok f pos (length text) -> cs_ul s = DNone -> cs_st s = DNone ->
+  nth_error text i = Some c -> nth_error (builtin_chars b) n = Some c ->
+  0 <= dx < f_cw f -> 0 <= dy < f_ch f ->
+  let gpr := f_iw f / f_cw f in
+  render (fst (draw_string F s text pos bl))
+    (P (px pos + Z.of_nat i * f_cw f + dx) (py pos - baseline_offset f bl + dy)) =
+  if atlas ((Z.of_nat n mod gpr) * f_cw f + dx) ((Z.of_nat n / gpr) * f_ch f + dy) then cs_text s else cs_bg s.
+Proof. exact builtin_char_shows_its_cell. Qed.
+
+(* ... and a character the mapping does not contain (control, non-BMP, ...) shows the cell of '?' *)
+Theorem C14_builtin_unmapped_shows_question_mark : forall b atlas s text pos bl i c n dx dy,
+  In b fonts ->
+  let f := bf_font b in
+  let F := MFont f (builtin_index b) atlas in
+  draw_ok f pos (length text) -> cs_ul s = DNone -> cs_st s = DNone ->
+  nth_error text i = Some c -> ~ In c (builtin_chars b) -> nth_error (builtin_chars b) n = Some 63 ->
+  0 <= dx < f_cw f -> 0 <= dy < f_ch f ->
+  let gpr := f_iw f / f_cw f in
+  render (fst (draw_string F s text pos bl))
+    (P (px pos + Z.of_nat i * f_cw f + dx) (py pos - baseline_offset f bl + dy)) =
+  if atlas ((Z.of_nat n mod gpr) * f_cw f + dx) ((Z.of_nat n / gpr) * f_ch f + dy) then cs_text s else cs_bg s.
+Proof. exact builtin_unmapped_shows_question_mark. Qed.
+
+(* the index range hypothesis of the draw_string theorems holds for every string *)
+Theorem C14_builtin_index_ok : forall b atlas text,
+  In b fonts -> index_ok (MFont (bf_font b) (builtin_index b) atlas) text.
+Proof. exact builtin_index_ok. Qed.
+
+(* mapped characters own pairwise disjoint cells *)
+Theorem C14_builtin_cells_disjoint : forall b c1 c2 p,
+  In b fonts -> In c1 (builtin_chars b) -> In c2 (builtin_chars b) -> c1 <> c2 ->
+  contains (glyph_area (bf_font b) (builtin_index b c1)) p && contains (glyph_area (bf_font b) (builtin_index b c2)) p = false.
+Proof. exact builtin_cells_disjoint. Qed.
+
 
 (* every index a built-in mapping can return - mapped or not - designates a cell completely inside the atlas *)
 Theorem C14_builtin_cells_inside : forall b c,
@@ -166,6 +249,11 @@ Theorem C14_builtin_unmapped_is_question_mark : forall b c,
   In b fonts -> ~ In c (builtin_chars b) -> builtin_index b c = builtin_index b 63 /\ In 63 (builtin_chars b).
 Proof. exact builtin_unmapped_is_question_mark. Qed.
 
+(* the glyph bitmaps (fonts/raw files) of the tree under test are the committed reference of Proofs/FontGolden.v:
+   name and FNV-1a digest of every font; c14_bi ties the same digest to font.image of the running library *)
+Theorem C14_builtin_bitmaps_unchanged : map (fun b => (bf_name b, bf_digest b)) fonts = golden_bitmaps.
+Proof. exact builtin_bitmaps_unchanged. Qed.
+
 (* the translator's own walk over each mapping string agrees with the model of StrGlyphMapping::chars *)
 Theorem C14_builtin_expansion_agrees : forall m, In m mappings -> bm_chars m = expand_chars (bm_raw m).
 Proof. exact builtin_expansion_agrees. Qed.
@@ -176,9 +264,15 @@ Example C14_example_font : mfont :=
         (fun x y => Z.even (x + y)).
 Example C14_example_renders :
   font_ok (mf_geom C14_example_font) /\ draw_ok (mf_geom C14_example_font) (P 10 20) 2 /\
+  index_ok C14_example_font [99; 120] /\
   map (render (fst (draw_string C14_example_font (CStyle (Some 7) (Some 9) DTextColor DNone) [99; 120] (P 10 20) BTop)))
       [P 10 20; P 11 20; P 14 20; P 15 20; P 16 23; P 12 24; P 19 24; P 9 20]
   = [Some 9; Some 7; Some 9; Some 7; None; Some 7; None; None]
   /\ str_index [0; 97; 100] 1 120 = 1 /\ length fonts = 292%nat.
-Proof. unfold font_ok, draw_ok, half. cbn [mf_geom C14_example_font f_iw f_ih f_cw f_sp f_ch f_base f_ul f_st d_off d_h px py length].
-  repeat split; try lia; vm_compute; reflexivity. Qed.
+Proof.
+  split; [unfold font_ok, half; cbn; lia|]. split; [unfold draw_ok, half; cbn; lia|].
+  split.
+  { intros c Hc. apply glyph_index_small_ok; destruct Hc as [<-|[<-|[]]];
+      repeat split; vm_compute; (reflexivity || discriminate). }
+  repeat split; vm_compute; reflexivity.
+Qed.
